@@ -145,3 +145,28 @@ def correspond_split(ctx, scases):
                              replay=dict(stream=list(stream), chunks=cs, k=k), has_input=False)
     ctx.extra["splitter_cases"] = len(scases)
     ctx.extra["splitter_disagreements"] = nbad
+
+
+def replay(ctx, data):
+    """./check C13 --replay F: re-run the recorded configuration on the real Negotiation pair"""
+    from harness import c13_impl as impl
+    ctx.rule = "replay of one recorded configuration"
+    ctx.coq_build(["props/C13.vo"])
+    rp = data.get("replay") or {}
+    cfg = rp.get("config") or rp.get("cfg") or rp.get("case") or rp
+    with impl.quiet():
+        if "stream" in rp and "k" in rp:
+            for cs in ([len(rp["stream"])], rp["chunks"]):
+                print("chunks", cs[:20], "->", [x if not isinstance(x, list) else len(x) for x in impl.split_trace(bytes(rp["stream"]), cs, rp["k"])])
+            ctx.case(["split-replay"])
+            scases = impl.splitter(ctx)
+        elif "ra" in cfg:
+            pa, pb, res = impl.trial(tuple(cfg["ra"]), tuple(cfg["rb"]), cfg["a_high"])
+            print("A:", pa, "B:", pb, "result:", res)
+            exp = impl.expected(tuple(cfg["ra"]), tuple(cfg["rb"]))
+            impl.judge(ctx, "replay", cfg, pa, pb, res, exp if exp else False)
+            ctx.case(["replay", cfg])
+        else:
+            print("note: replay kind not recognised; running the malformed and coalesced families")
+            impl.malformed(ctx)
+            impl.coalesced(ctx)
